@@ -16,7 +16,6 @@
 #include <stdlib.h>
 
 double  *wb_floor_trace; long wb_floor_n, wb_floor_cap;
-double  *wb_floor_arg;		/* the argument of every floor call (same indexing as wb_floor_trace) */
 double  *wb_ceil_trace;  long wb_ceil_n,  wb_ceil_cap;
 
 static double wb_floor (double x)
@@ -26,9 +25,7 @@ static double wb_floor (double x)
     {
 	wb_floor_cap = wb_floor_cap ? 2 * wb_floor_cap : 4096;
 	wb_floor_trace = realloc (wb_floor_trace, wb_floor_cap * sizeof (double));
-	wb_floor_arg = realloc (wb_floor_arg, wb_floor_cap * sizeof (double));
     }
-    wb_floor_arg[wb_floor_n] = x;
     wb_floor_trace[wb_floor_n++] = r;
     return r;
 }
